@@ -346,7 +346,7 @@ var basicObjects = []*ObjectSchema{
 		"Int",
 		map[string]*PropertySchema{
 			"min": NewPropertySchema(
-				NewIntSchema(IntPointer(0), nil, nil),
+				NewIntSchema(nil, nil, nil),
 				NewDisplayValue(
 					PointerTo("Minimum"),
 					PointerTo("Minimum value for this int (inclusive)."),
@@ -360,7 +360,7 @@ var basicObjects = []*ObjectSchema{
 				[]string{"5"},
 			),
 			"max": NewPropertySchema(
-				NewIntSchema(IntPointer(0), nil, nil),
+				NewIntSchema(nil, nil, nil),
 				NewDisplayValue(
 					PointerTo("Maximum"),
 					PointerTo("Maximum value for this int (inclusive)."),
